@@ -25,8 +25,11 @@ THEOREMS = ["Okane.Golden.C20_env", "Okane.Golden.C20_compare", "Okane.Golden.C2
 
 FILES = [None, b"", b"abc\n", b"abc\r\ndef\r\n", b"a\r\nb\nc\r", b"abc", "日本語\nñ\n".encode(), b"\r\n\r\n", b"\r\r\n", b"\xff\xfe\x00\xc3",
          # mixed line ends: LF first, CRLF later (and the other way round)
-         b"a\nb\r\n", b"\nab\r\n", b"a\nb\r\nc\nd\r\n"]
-GOTS = ["", "abc\n", "abc\ndef\n", "abc\r\ndef\r\n", "a\nb\nc\r", "abc", "日本語\nñ\n", "\n\n", "abc\n\n", "abd\n", "\r\n", " abc\n", "a\nb\n", "a\nb\r\n", "\nab\n", "a\nb\nc\nd\n"]
+         b"a\nb\r\n", b"\nab\r\n", b"a\nb\r\nc\nd\r\n",
+         # a byte-order mark is a character of the golden like any other (first or inside)
+         "\ufeffabc\n".encode(), "\ufeffabc\r\ndef\r\n".encode(), "ab\ufeffc\n".encode()]
+GOTS = ["", "abc\n", "abc\ndef\n", "abc\r\ndef\r\n", "a\nb\nc\r", "abc", "日本語\nñ\n", "\n\n", "abc\n\n", "abd\n", "\r\n", " abc\n", "a\nb\n", "a\nb\r\n", "\nab\n", "a\nb\nc\nd\n",
+        "\ufeffabc\n", "\ufeffabc\ndef\n", "ab\ufeffc\n"]
 ENVS = ["u", "s:~", "s:1", "s:0", "i", "s:" + enc("yes please")]
 
 
@@ -122,7 +125,7 @@ def run(chk):
             continue
         cases.append((f, e1, e2, g))
     if True:
-        alphabet = ["a", "b", "\r", "\n", "\r\n", "é", " "]
+        alphabet = ["a", "b", "\r", "\n", "\r\n", "é", " ", "\ufeff"]
         for _ in range(5000 if chk.tier == "thorough" else 600):
             s = "".join(chk.rng.choice(alphabet) for _ in range(chk.rng.randint(0, 8)))
             t = s if chk.rng.random() < 0.5 else s.replace("\r\n", "\n")
